@@ -10,6 +10,7 @@ import Rpft.Props.C02
 import Rpft.Props.C17
 import Rpft.Lemmas.ActionCodec
 import Rpft.Gen.Tables
+import Rpft.Canon
 set_option linter.unusedSimpArgs false
 set_option linter.unusedVariables false
 namespace Rpft.Props.C04
@@ -76,7 +77,7 @@ theorem tables_agree_actcodec :
     Gen.acDefaultSchemeExport = defaultScheme ∧ Gen.acDefaultSchemeParse = defaultScheme ∧
     Gen.cliMaxFieldValueLen = maxFieldValue ∧ Gen.cliMaxRunResultLen = maxResultValue ∧
     Gen.cliMaxFieldKeyLen = Campaign.maxKeyLen ∧ Gen.cliEmptyTextChecked = true ∧
-    Gen.cliHttpMethods = httpMethods ∧ Gen.cliDefaultHttpMethod = defaultMethod := by
+    Canon.sameSet Gen.cliHttpMethods httpMethods ∧ Gen.cliDefaultHttpMethod = defaultMethod := by
   decide
 
 /-- the enumeration `ContactProp` is the source's property list -/
